@@ -291,6 +291,42 @@ class GetNodeId(DeclContract):
 
 
 @contract
+class GenerateNodeId(DeclContract):
+    path = NODE_PY
+    name = 'generate_node_id'
+    returns = 'str'
+    props = ('C15',)
+    doc = '<prefix>__<name>, or <prefix>__<8 hex digits of a fresh uuid> when no name is given'
+
+    def setup(self, it):
+        st = it.st
+        which = st.choose([True, True], 'named')
+        name = SymS(st.fresh_str('name')) if which == 0 else None
+        return None, CallArgs([SymS(st.fresh_str('prefix')), name])
+
+    def bind(self, it, fi, self_val, ca):
+        args = list(ca.args)
+        prefix = args[0] if args else ca.kwargs['prefix']
+        name = args[1] if len(args) > 1 else ca.kwargs.get('name')
+        return A(prefix=prefix, name=name)
+
+    def ensures(self, it, pre, post, a, res):
+        r = it.as_str(res)
+        pfx = it.as_str(it.to_str(a.prefix))
+        out = [('starts-with-the-prefix', z3.PrefixOf(z3.Concat(pfx, S('__')), r))]
+        if a.name is not None and not (isinstance(a.name, SymV)):
+            out.append(('named-id', r == z3.Concat(pfx, S('__'), it.as_str(it.to_str(a.name)))))
+        return out
+
+    def effects_spec(self, it, pre, post, a, outcome, value, effects):
+        fresh = [e for e in effects if e.kind == 'fresh_uuid']
+        return [('a-fresh-uuid-exactly-when-no-name-is-given', (len(fresh) == 1) if a.name is None else (len(fresh) == 0))]
+
+    def call_effects(self, it, pre, post, a, res):
+        it.st.emit('generated_id', prefix=a.prefix, name=a.name, result=res)
+
+
+@contract
 class AddNodeToMap(DeclContract):
     name = 'AnnotationDAGBuilder._add_node_to_map'
     returns = 'none'
@@ -853,6 +889,13 @@ class Traverse(DeclContract):
                 s0 = sws[0]
                 sid = T(s0.a.node_id, st)
                 out.append(('switch-node-only-for-a-SwitchCase-mark|C15', kind == 2))
+                gens = [e for e in effs if e.kind == 'generated_id']
+                okg = len(gens) == 1 and gens[0].prefix == 'switch'
+                out.append(('Switch: one synthetic id per switch parameter, generated from the mark\'s own name (fresh when unnamed)|C15', okg))
+                if okg:
+                    nm_ = attr_fn('name')(mark)
+                    given = T(gens[0].name, st) if gens[0].name is not None else NONE
+                    out.append(('Switch: the id is derived from nothing but the mark\'s name|C15', z3.And(given == nm_, sid == T(gens[0].result, st))))
                 out.append(('Switch: synthetic node fed by the deciding node|C15,C09', z3.And(
                     T(s0.a.switch_decide_node_id, st) == NODE_ID(sw), z3.BoolVal(len(sws) == 1))))
                 out.append(('Switch: deciding node mapped and scheduled|C15,C16', z3.And(
